@@ -1095,6 +1095,41 @@ func modeC15Live() {
 	in.send("quic", "127.0.3.1", mkq(uniq()+".r0t60d0.third.test."), 3*time.Second, nil)
 	close(stop)
 	wg.Wait()
+	c15Header()
+}
+
+// DoH listeners that are told to take the client's address from a header (they sit behind a reverse proxy: every
+// connection comes from the same address): the limiter is charged for the address in the header, so one client's
+// flood leaves the others their budget
+func c15Header() {
+	lim := router.LimiterConfig{}
+	lim.Client.Limit, lim.Client.Burst = 20, 60
+	hx, hy, hz := "203.0.113.77", "2001:db8:7::1", "198.51.100.9"
+	in, err := newInst("c15xff", instOpts{
+		listeners: []string{"http", "fasthttp", "https"},
+		upstreams: map[string]string{"u1": "udp"},
+		rules:     []ruleSpec{{Forward: "u1"}},
+		limiter:   lim,
+		xffHeader: "X-Client",
+		clients:   []string{hx, hy, hz, "127.0.0.1"}, // the connections themselves are charged to the address they come from
+	})
+	if err != nil {
+		panic(err)
+	}
+	defer in.close()
+	for _, lst := range []string{"http", "fasthttp", "https"} {
+		par(3, func(w int) { // three connections: the TLS ones cost the connecting address 15 each
+			for k := 0; k < 24; k++ {
+				q := mkq(uniq() + ".r0t60d0.flood.test.")
+				q.mayRefuse = true
+				in.send(lst, "", q, 2*time.Second, map[string]string{"X-Client": hx, "keep": "1"})
+			}
+		})
+		// the others are served: nothing of their budget was spent
+		in.send(lst, "", mkq(uniq()+".r0t60d0.quiet.test."), 3*time.Second, map[string]string{"X-Client": hy, "keep": "1"})
+		in.send(lst, "", mkq(uniq()+".r0t60d0.quiet.test."), 3*time.Second, map[string]string{"X-Client": hz + ", 10.0.0.1", "keep": "1"})
+		time.Sleep(1600 * time.Millisecond)
+	}
 }
 
 // ---------------------------------------------------------------- C09 listener part: size limits per transport
